@@ -16,7 +16,7 @@ import HalmosVerif.Lemmas.CallsExamples
 namespace HalmosVerif.Props.C09
 open HalmosVerif.Model.Calls
 
-/-! ### concrete scenery for the non-vacuity examples -/
+/-! ### a 3-level tree (scenery: `Lemmas/CallsExamples.lean` — accounts A, B, C; `outer` calls `middle` calls `inner`) -/
 
 /-- a 3-level tree whose middle frame reverts: the inner frame's (successful) writes and both value transfers are undone,
 the outer frame sees flag 0, the revert data, and the copy truncated to `ret_size = 1` -/
